@@ -18,7 +18,7 @@ CHECKS = {
                 note="Bounds: <=4 nodes, cards<=3, |Q|<=2, |E|<=1 (+1 virtual evidence); P(e)>0 assumed; torch and rounding outside.",
                 ref="5/C01"),
     "C04": dict(text="Each DiscreteFactor operation (product/sum/divide/marginalize/maximize/reduce/normalize/copy/==/get_value/assignment, "
-                     "n-ary helpers, FactorSet/FactorDict) is run on factors whose entries are unconstrained symbolic reals over every listed "
+                     "operator forms incl. scalars on either side, n-ary helpers, FactorSet/FactorDict) is run on factors whose entries are unconstrained symbolic reals over every listed "
                      "scope/axis order/state labeling; results are compared by named assignment with the textbook definition for all values; "
                      "operands are checked entry-identical and un-aliased after out-of-place calls.",
                 note="Bounds: <=3 variables, cards<=3; in divide at most two divisor entries and two dividend entries may be zero/negative "
@@ -37,7 +37,7 @@ CHECKS.update({
                      "(ties free); keys and state names checked.",
                 note="Bounds: <=4 nodes (4-node BNs: 2 symbolic CPDs), query tables of <=4 (quick) / 9 (thorough) joint states, |E|<=1; max_marginal not covered.",
                 ref="5/C03"),
-    "C05": dict(text="TabularCPD construction, get_values, copy, to_factor, normalize, marginalize, reduce, reorder_parents (in/out of place) run on "
+    "C05": dict(text="TabularCPD construction, get_values, the labelled table export (to_csv rows), copy, to_factor, normalize, marginalize, reduce, reorder_parents (in/out of place) run on "
                      "symbolic 2-D tables for every parent permutation/subset; named conditionals, the 2-D layout and all state names are compared "
                      "with the defining formulas; is_valid_cpd and BayesianNetwork.check_model are explored with a symbolic column-sum error "
                      "against the tolerance band, and check_model on graphs wrong in exactly one respect.",
